@@ -10,7 +10,7 @@
 
     What `git push --force-with-lease=<ref>:<expected> <new>:<ref>` does to one ref of the
     remote is NOT jj's code: it enters the model as the oracle [srv cur expected new], which
-    returns (accepted?, value of the ref afterwards).  [git_srv] is the behaviour observed
+    returns (answer, value of the ref afterwards).  [git_srv] is the behaviour observed
     with git 2.39 and is what the correspondence runs use; the theorems only assume the
     contract stated in Props/C45.v. *)
 From Verif Require Import Base.Prelude Model.Merge Model.C34.
@@ -89,34 +89,52 @@ Definition ref_updates (v : jview) (names : list N) : list (N * (N * N)) :=
               | _ => []
               end) names.
 
-(** * The remote's answer, per ref: an oracle.  [git_srv] = git 2.39 with a lease:
-    "=" (already there) counts as pushed, a matching lease is accepted, anything else is
-    rejected as stale and the ref stays. *)
-Definition git_srv (cur expected new : N) : bool * N :=
-  if negb (new =? 0) && (cur =? new) then (true, cur)
-  else if cur =? expected then (true, new)
-  else (false, cur).
+(** * The remote's answer, per ref: an oracle with three outcomes (git push --porcelain:
+    accepted flags "+ - * = space"; "!" with "[rejected] (stale info)" = the lease failed,
+    decided by the pushing git before anything is sent; "!" with "[remote rejected] (...)" =
+    the remote refused the update, e.g. a server-side update / pre-receive hook).
+    [git_srv deny] = git 2.39 with a lease against a remote whose update hook refuses the
+    names in [deny]: "=" (already there) counts as pushed and is never sent, a stale lease is
+    rejected locally, a matching lease is sent and then accepted or refused by the hook; in
+    both kinds of rejection the ref stays. *)
+Inductive answer := Accepted | LeaseRejected | RemoteRejected.
+Definition answer_eqb (a b : answer) : bool :=
+  match a, b with
+  | Accepted, Accepted | LeaseRejected, LeaseRejected | RemoteRejected, RemoteRejected => true
+  | _, _ => false
+  end.
+
+Definition git_srv (deny : list N) (name cur expected new : N) : answer * N :=
+  if negb (new =? 0) && (cur =? new) then (Accepted, cur)
+  else if cur =? expected then
+    (if mem N.eqb name deny then (RemoteRejected, cur) else (Accepted, new))
+  else (LeaseRejected, cur).
 
 Section Push.
-  Context (srv : N -> N -> N -> bool * N).
+  Context (srv : N -> N -> N -> N -> answer * N).   (* name, current, expected, new *)
 
   Record push_state := mk_push {
     p_remote : gmap;                      (* refs/heads/ of the remote repository *)
     p_pushed : list (N * (N * N));        (* accepted updates, in request order *)
-    p_rejected : list N;                  (* GitPushStats::rejected *)
+    p_rejected : list N;                  (* GitPushStats::rejected (lease failures) *)
+    p_remote_rejected : list N;           (* GitPushStats::remote_rejected *)
   }.
 
   (** spawn_push + parse_ref_pushes (git_subprocess.rs:257-298, 565-646): one answer line
-      per requested ref; flags "+ - * = space" are pushes, "!" a rejection. *)
+      per requested ref; flags "+ - * = space" are pushes; "!" is a rejection, filed under
+      remote_rejected when the summary starts with "[remote rejected]", else under rejected. *)
   Definition push_one (st : push_state) (u : N * (N * N)) : push_state :=
     let '(n, (before, after)) := u in
-    let '(ok, cur') := srv (gget (p_remote st) n) before after in
+    let '(ans, cur') := srv n (gget (p_remote st) n) before after in
     mk_push (gset (p_remote st) n cur')
-            (if ok then p_pushed st ++ [u] else p_pushed st)
-            (if ok then p_rejected st else p_rejected st ++ [n]).
+            (match ans with Accepted => p_pushed st ++ [u] | _ => p_pushed st end)
+            (match ans with LeaseRejected => p_rejected st ++ [n] | _ => p_rejected st end)
+            (match ans with RemoteRejected => p_remote_rejected st ++ [n]
+                          | _ => p_remote_rejected st end).
 
   (** After an accepted update git itself moves refs/remotes/origin/<name> of the backing
       repository; then push_refs (git.rs:3327-3356) records the pushed refs: it exports them
+      (ONLY those: push_refs filters the requests by GitPushStats::pushed, git.rs:3315-3325)
       to the backing repository with the compare-and-swap of Model/C34.v
       ([build_pushed_bookmarks_to_export] + [export_refs_to_git]: deletions first) and, for
       those exported, sets git_refs and the remote-tracking bookmark (tracked). *)
@@ -149,18 +167,20 @@ Section Push.
 
   Record push_result := mk_result {
     q_view : jview; q_remote : gmap; q_backing : gmap;
-    q_pushed : list N; q_rejected : list N; q_unexported : list (N * reason) }.
+    q_pushed : list N; q_rejected : list N; q_remote_rejected : list N;
+    q_unexported : list (N * reason) }.
 
   Definition push (v : jview) (remote backing : gmap) (names : list N) : push_result :=
     let ups := ref_updates v names in
-    let st := fold_left push_one ups (mk_push remote [] []) in
+    let st := fold_left push_one ups (mk_push remote [] [] []) in
     let pushed := p_pushed st in
     let backing1 := fold_left git_tracking_update pushed backing in
     let r1 := fold_left record_delete pushed (mk_rec v backing1 []) in
     let r2 := fold_left record_update pushed r1 in
     let unexported := map fst (c_unexported r2) in
     let v' := fold_left (record_remote_bookmark unexported) pushed (c_view r2) in
-    mk_result v' (p_remote st) (c_backing r2) (map fst pushed) (p_rejected st) (c_unexported r2).
+    mk_result v' (p_remote st) (c_backing r2) (map fst pushed) (p_rejected st)
+              (p_remote_rejected st) (c_unexported r2).
 End Push.
 
 (** * Fetch = `git fetch --prune origin` in the backing repository (its
@@ -206,12 +226,14 @@ Inductive pstep :=
 | JjSet (n : N) (t : target)                  (* MutableRepo::set_local_bookmark_target *)
 | JjTrack (n : N) (tracked : bool)            (* jj bookmark track / untrack *)
 | Fetch (pre post : psnap)
-| Push (names : list N) (pre post : psnap) (pushed rejected : list N) (unexported : N).
+| Push (names : list N) (pre post : psnap) (pushed rejected remote_rejected : list N)
+       (unexported : N).
 
 Record case := mk_case {
   c_names : list N;
   c_graph : graph;
   c_auto_track : bool;
+  c_denied : list N;        (* names the remote's update hook refuses *)
   c_steps : list pstep;
   c_flags_ok : bool;
 }.
@@ -250,33 +272,35 @@ Fixpoint nodupb (l : list N) : bool :=
   | x :: t => negb (mem N.eqb x t) && nodupb t
   end.
 
-Fixpoint replay (anc : N -> N -> bool) (auto : bool) (names : list N) (steps : list pstep)
+Fixpoint replay (anc : N -> N -> bool) (auto : bool) (deny names : list N) (steps : list pstep)
   (w : world) : bool :=
   match steps with
   | [] => true
-  | Ext n c :: r => replay anc auto names r (mk_world (w_view w) (gset (w_remote w) n c) (w_backing w))
+  | Ext n c :: r => replay anc auto deny names r (mk_world (w_view w) (gset (w_remote w) n c) (w_backing w))
   | JjSet n t :: r =>
-      replay anc auto names r (mk_world (set_local_bookmark (w_view w) n t) (w_remote w) (w_backing w))
+      replay anc auto deny names r (mk_world (set_local_bookmark (w_view w) n t) (w_remote w) (w_backing w))
   | JjTrack n b :: r =>
-      replay anc auto names r (mk_world (track anc (w_view w) n b) (w_remote w) (w_backing w))
+      replay anc auto deny names r (mk_world (track anc (w_view w) n b) (w_remote w) (w_backing w))
   | Fetch pre post :: r =>
       let '(v', b') := fetch anc auto (w_view w) (w_remote w) in
       let w' := mk_world v' (w_remote w) b' in
       psnap_names_ok names pre && psnap_names_ok names post
-      && world_eqb_on names w pre && world_eqb_on names w' post && replay anc auto names r w'
-  | Push ns pre post pushed rejected unexported :: r =>
-      let q := push git_srv (w_view w) (w_remote w) (w_backing w) ns in
+      && world_eqb_on names w pre && world_eqb_on names w' post && replay anc auto deny names r w'
+  | Push ns pre post pushed rejected remote_rejected unexported :: r =>
+      let q := push (git_srv deny) (w_view w) (w_remote w) (w_backing w) ns in
       let w' := mk_world (q_view q) (q_remote q) (q_backing q) in
       nodupb ns (* a push considers each bookmark once *)
       && psnap_names_ok names pre && psnap_names_ok names post
       && world_eqb_on names w pre && world_eqb_on names w' post
       && list_eqb N.eqb (q_pushed q) pushed && list_eqb N.eqb (q_rejected q) rejected
+      && list_eqb N.eqb (q_remote_rejected q) remote_rejected
       && (N.of_nat (length (q_unexported q)) =? unexported)
-      && replay anc auto names r w'
+      && replay anc auto deny names r w'
   end.
 
 (** * The property checker on the OBSERVED states around every real push. *)
 Definition push_name_ok (ns : list N) (pre post : psnap) (pushed rejected : list N) (n : N) : bool :=
+  (* [rejected] = lease failures and remote rejections together *)
   let l := get (s_local pre) n in
   let rr := rget (rrmap_of (s_remote_bm pre)) n in
   let rr' := rget (rrmap_of (s_remote_bm post)) n in
@@ -301,15 +325,19 @@ Definition push_name_ok (ns : list N) (pre post : psnap) (pushed rejected : list
       then teqb (tracked_target rr') l && teqb (resolved c') l
            && teqb (get (s_grefs post) n) l && (gget (s_backing post) n =? c')
       else true)
+  (* whenever jj's record of the remote branch changes, it is the remote's real value: a
+     remote ref that did not move is never recorded as moved *)
+  && (rref_eqb rr' rr || teqb (tracked_target rr') (resolved c'))
   (* a ref is never both pushed and rejected; rejected refs were requested *)
   && (if mem N.eqb n rejected then negb is_pushed && mem N.eqb n ns else true).
 
 Fixpoint steps_ok (names : list N) (steps : list pstep) : bool :=
   match steps with
   | [] => true
-  | Push ns pre post pushed rejected unexported :: r =>
-      forallb (push_name_ok ns pre post pushed rejected) names
-      && in_names ns pushed && in_names ns rejected && (unexported =? 0)
+  | Push ns pre post pushed rejected remote_rejected unexported :: r =>
+      forallb (push_name_ok ns pre post pushed (rejected ++ remote_rejected)) names
+      && in_names ns pushed && in_names ns rejected && in_names ns remote_rejected
+      && (unexported =? 0)
       && steps_ok names r
   | _ :: r => steps_ok names r
   end.
@@ -317,7 +345,7 @@ Fixpoint steps_ok (names : list N) (steps : list pstep) : bool :=
 Definition empty_world : world := mk_world (mk_jview [] [] []) [] [].
 
 (** The model's own execution of a schedule, for any remote behaviour [srv]. *)
-Definition step_world (srv : N -> N -> N -> bool * N) (anc : N -> N -> bool) (auto : bool)
+Definition step_world (srv : N -> N -> N -> N -> answer * N) (anc : N -> N -> bool) (auto : bool)
   (w : world) (s : pstep) : world :=
   match s with
   | Ext n c => mk_world (w_view w) (gset (w_remote w) n c) (w_backing w)
@@ -326,7 +354,7 @@ Definition step_world (srv : N -> N -> N -> bool * N) (anc : N -> N -> bool) (au
   | Fetch _ _ =>
       mk_world (fst (fetch anc auto (w_view w) (w_remote w))) (w_remote w)
                (snd (fetch anc auto (w_view w) (w_remote w)))
-  | Push ns _ _ _ _ _ =>
+  | Push ns _ _ _ _ _ _ =>
       let q := push srv (w_view w) (w_remote w) (w_backing w) ns in
       mk_world (q_view q) (q_remote q) (q_backing q)
   end.
@@ -337,5 +365,6 @@ Definition okb (c : case) : bool := c_flags_ok c && steps_ok (c_names c) (c_step
 
 Definition check_case (c : case) : N :=
   let corr := c_flags_ok c
-              && replay (ancb (c_graph c)) (c_auto_track c) (c_names c) (c_steps c) empty_world in
+              && replay (ancb (c_graph c)) (c_auto_track c) (c_denied c) (c_names c) (c_steps c)
+                        empty_world in
   verdict corr (okb c) false 1.
